@@ -27,6 +27,7 @@ BOUNDS = {"quick": {"precedence": "CrossHair: each of 8 options symbolic at laye
                                   "and all 256 set/unset masks; Layer.update; Layer.copy independence",
                     "map": "8-cell mesh, symbolic values, thin and thick, resolution int / dict / partial dict, 2 layers sharing option objects, called twice",
                     "histogram2d": "2 symbolic points, 1-2 layers, called twice",
+                    "norm instance": "a matplotlib Normalize object as the norm option at call / layer level together with vmin/vmax (map, histogram2d)",
                     "histogram1d / scatter / plot": "3 symbolic points; bins int / edges, weights and extra options at layer / call level; colour none/str/Array, "
                                                     "size none/float; plot forms x-y, y only, two layers"},
           "thorough": {"as": "quick"}}
@@ -55,6 +56,11 @@ def configs(tier):
     for opts in ("layer", "call", "both", "neither"):
         out.append(dict(kind="hist2d", opts=opts, nlayers=2))
     out.append(dict(kind="hist2d", opts="both", nlayers=0))
+    # a matplotlib norm INSTANCE given as the norm option (at call level: shared by the layers; or stored on a Layer),
+    # together with vmin / vmax: the caller's object must come back untouched
+    for where in ("call", "layer"):
+        out.append(dict(kind="hist2d", opts="both", nlayers=2, normobj=where))
+        out.append(dict(kind="map", res="dict", thick=False, opts="both", normobj=where))
     # histogram1d / scatter / plot: given a RECORDING axes object through their public `ax=` argument, so that no
     # matplotlib code runs (the drawing itself is outside the claim) while everything osyris does to its inputs is observed
     for opts in ("layer", "call", "both", "neither"):
@@ -86,9 +92,22 @@ def snap_layer(m, l):
                 arrays_id=id(l.arrays), members={k: id(v) for k, v in l.arrays.items()}, key=l.key)
 
 
+def _same(a, b):
+    """Equality of option values that may be arrays (bin edges) or arbitrary objects (a norm instance: identity)."""
+    if a is b:
+        return True
+    if isinstance(a, np.ndarray) or isinstance(b, np.ndarray):
+        return isinstance(a, np.ndarray) and isinstance(b, np.ndarray) and a.shape == b.shape and bool(np.array_equal(a, b))
+    try:
+        return bool(a == b)
+    except Exception:
+        return False
+
+
 def same_layer(l, s):
-    return (id(l) == s["id"] and l.mode == s["mode"] and l.operation == s["operation"] and l.norm == s["norm"] and l.vmin == s["vmin"]
-            and l.vmax == s["vmax"] and l.bins == s["bins"] and l.weights == s["weights"] and l.kwargs == s["kwargs"]
+    return (id(l) == s["id"] and l.mode == s["mode"] and l.operation == s["operation"] and _same(l.norm, s["norm"]) and _same(l.vmin, s["vmin"])
+            and _same(l.vmax, s["vmax"]) and _same(l.bins, s["bins"]) and _same(l.weights, s["weights"])
+            and l.kwargs.keys() == s["kwargs"].keys() and all(_same(l.kwargs[k], s["kwargs"][k]) for k in l.kwargs)
             and id(l.kwargs) == s["kwargs_id"] and list(l.arrays.keys()) == s["keys"] and id(l.arrays) == s["arrays_id"]
             and {k: id(v) for k, v in l.arrays.items()} == s["members"] and l.key == s["key"])
 
@@ -358,6 +377,13 @@ def _map(m, cfg):
     dg["velocity"] = Vector(*vel, unit="cm/s")
     lopt = dict(mode="contourf", vmin=1.0, cmap="viridis") if opts in ("layer", "both") else {}
     copt = dict(mode="image", vmin=2.0, vmax=9.0, alpha=0.5) if opts in ("call", "both") else {}
+    nobj = None
+    if cfg.get("normobj"):
+        from matplotlib.colors import Normalize
+        nobj = Normalize()
+        (copt if cfg["normobj"] == "call" else lopt)["norm"] = nobj
+        tag += ":norm-instance-" + cfg["normobj"]
+        nsnap = (nobj.vmin, nobj.vmax, nobj.clip)
     l1 = dg.layer("density", **lopt)
     l2 = dg.layer("velocity", mode="vec")
     ureg = osyris.units._ureg
@@ -411,6 +437,10 @@ def _map(m, cfg):
     m.require(same_array(m, origin, osnap) and float(dxq.magnitude) == 1.0 and str(dxq.units) == "centimeter",
               "origin and window size are not modified", key=f"modified-origin:{tag}")
     _repeat(m, p1, p2, tag)
+    if nobj is not None:
+        m.require((nobj.vmin, nobj.vmax, nobj.clip) == nsnap, "a norm object given as an option is not modified", key=f"modified-norm:{tag}",
+                  info=str((nobj.vmin, nobj.vmax)))
+        return
     # precedence as reported by the Plot
     want_mode = lopt.get("mode", copt.get("mode"))
     m.require(p1.layers[0]["mode"] == want_mode and p1.layers[1]["mode"] == "vec", "layer-level mode overrides the call-level mode",
@@ -436,6 +466,13 @@ def _hist(m, cfg):
     w2 = Array(m.array("u", (2,), "float64"), unit="erg", name="ener")
     lopt = dict(mode="contourf", operation="mean", vmax=5.0, cmap="magma") if opts in ("layer", "both") else {}
     copt = dict(mode="image", operation="sum", vmin=0.5, vmax=7.0, alpha=0.25) if opts in ("call", "both") else {}
+    nobj = None
+    if cfg.get("normobj"):
+        from matplotlib.colors import Normalize
+        nobj = Normalize()
+        (copt if cfg["normobj"] == "call" else lopt)["norm"] = nobj
+        tag += ":norm-instance-" + cfg["normobj"]
+        nsnap = (nobj.vmin, nobj.vmax, nobj.clip)
     layers = [Layer(w, **lopt), Layer(w2)][:nl]
     kw = dict(resolution=2, plot=False, xmin=0.0, xmax=2.0, ymin=0.0, ymax=2.0, **copt)
     arrs = [x, y, w, w2]
@@ -448,6 +485,10 @@ def _hist(m, cfg):
     m.require(all(same_layer(l, s) for l, s in zip(layers, ls)), "the Layers and their option dictionaries are not modified",
               key=f"modified-layer:{tag}")
     _repeat(m, p1, p2, tag)
+    if nobj is not None:
+        m.require((nobj.vmin, nobj.vmax, nobj.clip) == nsnap, "a norm object given as an option is not modified", key=f"modified-norm:{tag}",
+                  info=str((nobj.vmin, nobj.vmax)))
+        return
     if nl:
         m.require(p1.layers[0]["mode"] == lopt.get("mode", copt.get("mode")), "layer-level mode overrides the call-level mode",
                   key=f"precedence-mode:{tag}")
